@@ -105,6 +105,31 @@ class Describer:
             if cn and not any(s[0] == 'assign' for s in binding_sites(fn, e.id)):
                 return cn
             v = nearest_assignment(fn, e.id, at)
+            if v is None:
+                # bound by unpacking a tuple display:  a, b = (x, y)
+                for bs in binding_sites(fn, e.id):
+                    if bs[0] == 'unpack' and isinstance(bs[1], (ast.Tuple, ast.List)) and isinstance(bs[2], (ast.Tuple, ast.List)) \
+                            and len(bs[1].elts) == len(bs[2].elts) and getattr(bs[3], 'lineno', 0) <= getattr(at, 'lineno', 10 ** 9):
+                        for tv, te in zip(bs[1].elts, bs[2].elts):
+                            if isinstance(te, ast.Name) and te.id == e.id:
+                                v = tv
+                    elif bs[0] == 'unpack' and isinstance(bs[1], ast.IfExp) and isinstance(bs[2], (ast.Tuple, ast.List)) \
+                            and isinstance(bs[1].body, ast.Tuple) and isinstance(bs[1].orelse, ast.Tuple) \
+                            and len(bs[1].body.elts) == len(bs[1].orelse.elts) == len(bs[2].elts) \
+                            and getattr(bs[3], 'lineno', 0) <= getattr(at, 'lineno', 10 ** 9):
+                        # a, b = (x1, y1) if c else (x2, y2)
+                        for i_, te in enumerate(bs[2].elts):
+                            if isinstance(te, ast.Name) and te.id == e.id:
+                                v = ast.IfExp(test=bs[1].test, body=bs[1].body.elts[i_], orelse=bs[1].orelse.elts[i_])
+                                ast.copy_location(v, bs[1])
+                                v._parent = bs[1]
+            else:
+                # assigned in both branches of one if/else: a conditional value
+                both = self._if_else_value(e.id, at)
+                if both is not None:
+                    t, a, b = both
+                    return (f'({self.describe(a, a, depth + 1, row)} if {self._cond(t, t, depth, row)} '
+                            f'else {self.describe(b, b, depth + 1, row)})')
             if v is not None and row is not None:
                 # a loop / comprehension variable of the row shadows an earlier plain assignment of the same name
                 for tgt, _it in row.gens:
@@ -180,8 +205,11 @@ class Describer:
         if isinstance(e, (ast.List, ast.Tuple)) and depth < 12:
             return '[' + ', '.join(self.describe(x, x, depth + 1, row) for x in e.elts) + ']'
         if isinstance(e, ast.IfExp):
-            return (f'({self.describe(e.body, at, depth + 1, row)} if {self._cond(e.test, at, depth, row)} '
-                    f'else {self.describe(e.orelse, at, depth + 1, row)})')
+            t, a, b = e.test, e.body, e.orelse
+            while isinstance(t, ast.UnaryOp) and isinstance(t.op, ast.Not):
+                t, a, b = t.operand, b, a
+            return (f'({self.describe(a, at, depth + 1, row)} if {self._cond(t, at, depth, row)} '
+                    f'else {self.describe(b, at, depth + 1, row)})')
         if isinstance(e, ast.BoolOp):
             op = ' and ' if isinstance(e.op, ast.And) else ' or '
             return '(' + op.join(self.describe(v, at, depth + 1, row) for v in e.values) + ')'
@@ -203,6 +231,25 @@ class Describer:
         if isinstance(t, ast.Call) and isinstance(t.func, ast.Name) and t.func.id == '_is_external' and t.args:
             return f'external({self.describe(t.args[0], at, depth + 1, row)})'
         return self.describe(t, at, depth + 1, row)
+
+    def _if_else_value(self, name, at):
+        """(test, value-if-true, value-if-false) when the nearest bindings of `name` before `at` are the two single assignments in
+        the branches of one if/else statement"""
+        best = None
+        for n in ast.walk(self.func.node):
+            if isinstance(n, ast.If) and len(n.body) == 1 and len(n.orelse) == 1 and getattr(n, 'end_lineno', 0) < getattr(at, 'lineno', 0):
+                a, b = n.body[0], n.orelse[0]
+                if all(isinstance(x, ast.Assign) and len(x.targets) == 1 and isinstance(x.targets[0], ast.Name) and x.targets[0].id == name
+                       for x in (a, b)):
+                    if best is None or n.lineno > best[0].lineno:
+                        best = (n, a.value, b.value)
+        if best is None:
+            return None
+        # no other assignment between the if and the use
+        for bs in binding_sites(self.func.node, name):
+            if bs[0] == 'assign' and best[0].end_lineno < bs[2].lineno < getattr(at, 'lineno', 0):
+                return None
+        return best[0].test, best[1], best[2]
 
     def _dict_flow(self, name, row, depth):
         """`for k in D` / `for x in D[k]` where D is a dict comprehension built in the same function."""
